@@ -320,22 +320,29 @@ theorem tee_frame (cfg : Cfg) (c : Cache) (r : Req) (p : Plan) (gen now : Nat) (
   · split
     · rfl
     · split
-      · exact delete_frame _ _ _ hne
-      · exact put_frame _ _ _ _ _ _ _ hne
+      · rfl
+      · split
+        · exact delete_frame _ _ _ hne
+        · exact put_frame _ _ _ _ _ _ _ hne
 
 theorem tee_marked (cfg : Cfg) (c : Cache) (r : Req) (p : Plan) (gen now : Nat)
-    (h : sNoStore ∈ r.cc ∨ p.noStore = true ∨ p.pragmaNoCache = true) : tee cfg c r p gen now = c := by
+    (h : sNoStore ∈ r.cc ∨ p.noStore = true ∨ p.pragmaNoCache = true ∨ p.completes r = false) :
+    tee cfg c r p gen now = c := by
   unfold tee
   split
   · rfl
-  · rename_i h1
+  · rename_i h0
     split
     · rfl
-    · rename_i h2
-      rcases h with h | h | h
-      · exact absurd h h1
-      · exact absurd (Or.inr h) h2
-      · exact absurd (Or.inl h) h2
+    · rename_i h1
+      split
+      · rfl
+      · rename_i h2
+        rcases h with h | h | h | h
+        · exact absurd h h1
+        · exact absurd (Or.inr h) h2
+        · exact absurd (Or.inl h) h2
+        · exact absurd h h0
 
 /-- a request touches only its own resource -/
 theorem request_frame (cfg : Cfg) (w : World) (r : Req) (p : Plan) (u : Str) (hne : r.uri ≠ u) :
@@ -393,7 +400,7 @@ theorem runOps_absent (cfg : Cfg) (ops : List Op) (w : World) (u : Str)
     · exact step_absent cfg w op u (fun r p he => hops r p (by simp [he])) h
 
 theorem request_marked_shrinks (cfg : Cfg) (w : World) (r : Req) (p : Plan)
-    (h : sNoStore ∈ r.cc ∨ p.noStore = true ∨ p.pragmaNoCache = true) :
+    (h : sNoStore ∈ r.cc ∨ p.noStore = true ∨ p.pragmaNoCache = true ∨ p.completes r = false) :
     Shrinks (request cfg w r p).1.cache.store w.cache.store := by
   unfold request
   split
@@ -502,8 +509,10 @@ theorem tee_sizeInv {cfg : Cfg} {c : Cache} (h : SizeInv cfg c) (r : Req) (p : P
   · split
     · exact h
     · split
-      · exact h.same rfl rfl
-      · exact put_sizeInv h r p gen now
+      · exact h
+      · split
+        · exact h.same rfl rfl
+        · exact put_sizeInv h r p gen now
 
 theorem request_sizeInv {cfg : Cfg} {w : World} (h : SizeInv cfg w.cache) (r : Req) (p : Plan) :
     SizeInv cfg (request cfg w r p).1.cache := by
@@ -846,8 +855,10 @@ theorem tee_countInv {cfg : Cfg} {c : Cache} (h : CountInv cfg c.store) (r : Req
   · split
     · exact h
     · split
-      · exact h.of_le (countRes_adel _ _)
-      · exact put_countInv h r p gen now
+      · exact h
+      · split
+        · exact h.of_le (countRes_adel _ _)
+        · exact put_countInv h r p gen now
 
 theorem request_countInv {cfg : Cfg} {w : World} (h : CountInv cfg w.cache.store) (r : Req) (p : Plan) :
     CountInv cfg (request cfg w r p).1.cache.store := by
